@@ -127,7 +127,7 @@ Proof.
   intro Hpos. unfold mat_eq. unf_spec. unf_rv_p0.
   assert (Hn : 0 < sqrt (x*x + y*y + z*z)) by (apply sqrt_lt_R0; lra).
   destruct (Req_EM_T (sqrt (x*x + y*y + z*z)) 0) as [E|_]; [lra|].
-  repeat split; reflexivity.
+  repeat split; (field; split; lra).
 Qed.
 
 Lemma rotvec_large_is_rotation x y z : x*x + y*y + z*z > 1/1000000 ->
@@ -246,6 +246,18 @@ Section SmallEntries.
       with ((n * n * k2t - (1 - c)) * (p / n) * (q / n) + (n * k1t - s) * (w / n)) by (field; lra).
     apply abs_add; [apply abs3|apply abs2]; assumption.
   Qed.
+  (* the same, for any expressions equal to those shapes (robust against harmless rewrites) *)
+  Lemma entry_diag' a b p : a = k2t * p * p + ct -> b = (1 - c) / (n * n) * p * p + c ->
+    Rabs (p / n) <= 1 -> Rabs (a - b) <= E2 + E0.
+  Proof. intros -> ->. apply entry_diag. Qed.
+
+  Lemma entry_minus' a b p q w : a = k2t * p * q - k1t * w -> b = (1 - c) / (n * n) * p * q - s / n * w ->
+    Rabs (p / n) <= 1 -> Rabs (q / n) <= 1 -> Rabs (w / n) <= 1 -> Rabs (a - b) <= E2 + E1.
+  Proof. intros -> ->. apply entry_minus. Qed.
+
+  Lemma entry_plus' a b p q w : a = k2t * p * q + k1t * w -> b = (1 - c) / (n * n) * p * q + s / n * w ->
+    Rabs (p / n) <= 1 -> Rabs (q / n) <= 1 -> Rabs (w / n) <= 1 -> Rabs (a - b) <= E2 + E1.
+  Proof. intros -> ->. apply entry_plus. Qed.
 End SmallEntries.
 
 (** the Taylor branch formulas against the closed form, on 0 <= |v|^2 <= 1e-6 *)
@@ -274,19 +286,38 @@ Proof.
     assert (Ht : 0 <= n <= 1/1000) by (split; [lra|nra]).
     pose proof (taylor_sin n Ht) as T1. pose proof (taylor_cos n Ht) as T0.
     pose proof (taylor_1mcos n Ht) as T2.
+    set (k1t := 1 - n*n/6 + (n*n)*(n*n)/120) in T1.
+    set (ct := 1 - n*n/2 + (n*n)*(n*n)/24) in T0.
+    set (k2t := 1/2 - n*n/24 + (n*n)*(n*n)/720) in T2.
     destruct (abs_le_norm n x y z Hn Hn2) as (Ux & Uy & Uz).
     assert (B1 : 1/10^27 + 2/10^21 <= 1/10^20) by lra.
     assert (B2 : 1/10^27 + 1/10^24 <= 1/10^20) by lra.
+    assert (Hnn : n * n <> 0) by nra.
     repeat split.
-    + eapply Rle_trans; [apply (entry_diag n (cos n) _ _ _ _ Hn T0 T2 x Ux)|exact B1].
-    + eapply Rle_trans; [apply (entry_minus n (cos n) (sin n) _ _ _ _ Hn T1 T2 x y z Ux Uy Uz)|exact B2].
-    + eapply Rle_trans; [apply (entry_plus n (cos n) (sin n) _ _ _ _ Hn T1 T2 x z y Ux Uz Uy)|exact B2].
-    + eapply Rle_trans; [apply (entry_plus n (cos n) (sin n) _ _ _ _ Hn T1 T2 y x z Uy Ux Uz)|exact B2].
-    + eapply Rle_trans; [apply (entry_diag n (cos n) _ _ _ _ Hn T0 T2 y Uy)|exact B1].
-    + eapply Rle_trans; [apply (entry_minus n (cos n) (sin n) _ _ _ _ Hn T1 T2 y z x Uy Uz Ux)|exact B2].
-    + eapply Rle_trans; [apply (entry_minus n (cos n) (sin n) _ _ _ _ Hn T1 T2 z x y Uz Ux Uy)|exact B2].
-    + eapply Rle_trans; [apply (entry_plus n (cos n) (sin n) _ _ _ _ Hn T1 T2 z y x Uz Uy Ux)|exact B2].
-    + eapply Rle_trans; [apply (entry_diag n (cos n) _ _ _ _ Hn T0 T2 z Uz)|exact B1].
+    + eapply Rle_trans; [|exact B1].
+      apply (entry_diag' n (cos n) k2t ct _ _ Hn T0 T2 _ _ x); [unfold k2t, ct; field|reflexivity|exact Ux].
+    + eapply Rle_trans; [|exact B2].
+      apply (entry_minus' n (cos n) (sin n) k1t k2t _ _ Hn T1 T2 _ _ x y z);
+        [unfold k2t, k1t; field|reflexivity|exact Ux|exact Uy|exact Uz].
+    + eapply Rle_trans; [|exact B2].
+      apply (entry_plus' n (cos n) (sin n) k1t k2t _ _ Hn T1 T2 _ _ x z y);
+        [unfold k2t, k1t; field|reflexivity|exact Ux|exact Uz|exact Uy].
+    + eapply Rle_trans; [|exact B2].
+      apply (entry_plus' n (cos n) (sin n) k1t k2t _ _ Hn T1 T2 _ _ y x z);
+        [unfold k2t, k1t; field|reflexivity|exact Uy|exact Ux|exact Uz].
+    + eapply Rle_trans; [|exact B1].
+      apply (entry_diag' n (cos n) k2t ct _ _ Hn T0 T2 _ _ y); [unfold k2t, ct; field|reflexivity|exact Uy].
+    + eapply Rle_trans; [|exact B2].
+      apply (entry_minus' n (cos n) (sin n) k1t k2t _ _ Hn T1 T2 _ _ y z x);
+        [unfold k2t, k1t; field|reflexivity|exact Uy|exact Uz|exact Ux].
+    + eapply Rle_trans; [|exact B2].
+      apply (entry_minus' n (cos n) (sin n) k1t k2t _ _ Hn T1 T2 _ _ z x y);
+        [unfold k2t, k1t; field|reflexivity|exact Uz|exact Ux|exact Uy].
+    + eapply Rle_trans; [|exact B2].
+      apply (entry_plus' n (cos n) (sin n) k1t k2t _ _ Hn T1 T2 _ _ z y x);
+        [unfold k2t, k1t; field|reflexivity|exact Uz|exact Uy|exact Ux].
+    + eapply Rle_trans; [|exact B1].
+      apply (entry_diag' n (cos n) k2t ct _ _ Hn T0 T2 _ _ z); [unfold k2t, ct; field|reflexivity|exact Uz].
 Qed.
 
 Lemma rotvec_small_accurate x y z : x*x + y*y + z*z <= 1/1000000 ->
